@@ -8,28 +8,28 @@ import (
 )
 
 var table = map[string]func(*checks.Run){
-	"C01": checks.C01,
-	"FIX": checks.Fixtures,
+	"C01":      checks.C01,
+	"FIX":      checks.Fixtures,
 	"SELFTEST": checks.Selftest,
-	"C02": checks.C02,
-	"C19": checks.C19,
-	"C20": checks.C20,
-	"C14": checks.C14,
-	"C15": checks.C15,
-	"C16": checks.C16,
-	"C17": checks.C17,
-	"C18": checks.C18,
-	"C03": checks.C03,
-	"C04": checks.C04,
-	"C05": checks.C05,
-	"C06": checks.C06,
-	"C09": checks.C09,
-	"C08": checks.C08,
-	"C07": checks.C07,
-	"C10": checks.C10,
-	"C11": checks.C11,
-	"C12": checks.C12,
-	"C13": checks.C13,
+	"C02":      checks.C02,
+	"C19":      checks.C19,
+	"C20":      checks.C20,
+	"C14":      checks.C14,
+	"C15":      checks.C15,
+	"C16":      checks.C16,
+	"C17":      checks.C17,
+	"C18":      checks.C18,
+	"C03":      checks.C03,
+	"C04":      checks.C04,
+	"C05":      checks.C05,
+	"C06":      checks.C06,
+	"C09":      checks.C09,
+	"C08":      checks.C08,
+	"C07":      checks.C07,
+	"C10":      checks.C10,
+	"C11":      checks.C11,
+	"C12":      checks.C12,
+	"C13":      checks.C13,
 }
 
 func main() {
